@@ -360,6 +360,7 @@ func findReference(msaIn io.Reader, referenceID string) (fastaio.EncodedFastaRec
 func RegionsFromGFF(anno gff.GFF, refSeqDegapped string) ([]Region, []int, error) {
 
 	IDed := make(map[string][]gff.Feature)
+	idOrder := make([]string, 0) // IDs in order of first appearance, so that output order never depends on map iteration
 	other := make([]gff.Feature, 0)
 	for _, f := range anno.Features {
 		if !(f.Type == "CDS" || f.Type == "mature_protein_region_of_CDS") {
@@ -367,6 +368,9 @@ func RegionsFromGFF(anno gff.GFF, refSeqDegapped string) ([]Region, []int, error
 		}
 		if f.HasAttribute("ID") {
 			id, ok := f.Attributes["ID"]
+			if _, seen := IDed[id[0]]; !seen {
+				idOrder = append(idOrder, id[0])
+			}
 			if ok {
 				IDed[id[0]] = append(IDed[id[0]], f)
 			} else {
@@ -378,7 +382,8 @@ func RegionsFromGFF(anno gff.GFF, refSeqDegapped string) ([]Region, []int, error
 	}
 
 	tempcds := make([]Region, 0)
-	for _, f := range IDed {
+	for _, id := range idOrder {
+		f := IDed[id]
 		r, err := CDSRegion2fromGFF(f, refSeqDegapped)
 		if err != nil {
 			return []Region{}, []int{}, err
